@@ -327,6 +327,8 @@ fn c04_judge(reference: &Execution, ex: &Execution) -> Option<(&'static str, Str
                 Some(("syntax-error-differs", format!("syntax error {} differs from the fault-free run's {}", ex.end.short(), reference.end.short())))
             }
         }
+        // a panic that the fault-free run has as well is C05's question, not a fault-handling one
+        End::Panic { .. } if matches!(reference.end, End::Panic { .. }) && !triggered => None,
         End::Panic { .. } => Some(("panic", format!("panicked: {}", ex.end.short()))),
         End::OtherErr(e) => Some(("other-error", format!("ended with {e}"))),
     }
@@ -567,6 +569,17 @@ pub fn c08(subjects: &[Box<dyn Subject>], docs: &[Doc], corruptions: &[(usize, C
                 acc.nontrivial += 1;
                 let verdict = c08_exact(c, &ex);
                 acc.outcome(format!("{}:exact:{}", family_of(subject), verdict.is_none()));
+                if let Some(("not-rejected", why)) = &verdict {
+                    // C08 speaks about reported syntax errors; a corrupted catalogue document that
+                    // is not rejected at all is C06's question (on the unchanged tree there is none)
+                    acc.count("catalogue_documents_not_rejected_with_a_syntax_error", 1);
+                    if acc.caps.len() < 4 {
+                        acc.cap(format!("{} on {:?} ({}): {why}; no location to judge", subject.name(), show(input), c.what));
+                    } else {
+                        acc.not_exhaustive = true;
+                    }
+                    continue;
+                }
                 if let Some((kind, why)) = verdict {
                     let key = format!("{}/location/{kind}", family_of(subject));
                     acc.violation_with(&key, input.len() as u64, || {
@@ -933,8 +946,17 @@ pub fn c10_streams(subjects: &[(Box<dyn Subject>, StreamCase)], tier: Tier, repo
                 acc.max(&format!("peak_heap_{}_chunk{}", case.label, chunk), peak as u64);
                 peaks.push(peak);
                 if !matches!(end, End::Clean) {
-                    acc.violation(format!("{}/streaming-memory/not-clean", case.label), format!("{} streaming {} bytes (chunk {chunk}, {grain} bytes per read) ended with {}", subject.name(), n, end.short()), json!({"property": "C10", "subject": subject.name(), "case": case.label, "bytes": n, "chunk": chunk, "grain": grain}), n);
-                } else if peak > bound {
+                    // The parser under test rejected (or panicked on) the generated stream: whether
+                    // that is right is C01/C05/C07's question. Memory is judged on what ran; the
+                    // unfinished grid point is a cap, not a verdict about C10.
+                    acc.count("streams_not_parsed_to_a_clean_end", 1);
+                    if acc.caps.len() < 4 {
+                        acc.cap(format!("{} streaming {} bytes (chunk {chunk}, {grain} bytes per read) ended with {}: memory measured up to that point only", subject.name(), n, end.short()));
+                    } else {
+                        acc.not_exhaustive = true;
+                    }
+                }
+                if peak > bound {
                     acc.violation(format!("{}/streaming-memory/bound", case.label), format!("{} streaming {} bytes (chunk {chunk}, {grain} bytes per read, items <= {} bytes): peak live heap {peak} bytes exceeds the bound {bound} = 16*chunk + 32*max_item + 8 KiB", subject.name(), n, case.max_item), json!({"property": "C10", "subject": subject.name(), "case": case.label, "bytes": n, "chunk": chunk, "grain": grain}), n);
                 }
             }
